@@ -377,7 +377,12 @@ class Engine:
                 c2 = o.cells.get(off + k)
                 if c2 is None or k + c2[1] > nb: parts = None; break
                 parts.append((k, c2[0], c2[1])); k += c2[1]
-            if parts: return Bundle(parts, nb)
+            if parts:
+                if all(isinstance(pv, int) and not isinstance(pv, bool) for (_, pv, _) in parts):
+                    raw = 0
+                    for (k, pv, pn) in parts: raw |= (pv & ((1 << (8 * pn)) - 1)) << (8 * k)
+                    return sgn(raw, nb * 8)
+                return Bundle(parts, nb)
         if c is None:
             covering = [(k, cc) for k, cc in o.cells.items() if k < off + nb and k + cc[1] > off]
             if not covering:
